@@ -220,6 +220,7 @@ def harnesses(t):
 
 LISTING = "\n".join([
     "0000000000001000 <f>:",
+    "int f(void) { return g(); }",          # a source line as objdump -S interleaves them: not an instruction
     "    1000:\t48 89 c3             \tmov    %rax,%rbx",
     "    1003:\te8 15 00 00 00       \tcall   20 <g>",
     "    1008:\t48 89 c3             \tmov    %rax,%rbx",
